@@ -227,12 +227,20 @@ func (enc Encryptor) encryptZeroPk(pk *PublicKey, ct interface{}) (err error) {
 	switch ct := ct.(type) {
 	case Element[ring.Poly]:
 
+		if ct.Degree() < 1 {
+			return fmt.Errorf("cannot encrypt with a public key: target must be of degree at least 1 but is of degree %d", ct.Degree())
+		}
+
 		levelQ = ct.Level()
 		levelP = 0
 
 		ct0QP = ringqp.Poly{Q: ct.Value[0], P: enc.buffQP[0].Q}
 		ct1QP = ringqp.Poly{Q: ct.Value[1], P: enc.buffQP[0].P}
 	case Element[ringqp.Poly]:
+
+		if ct.Degree() < 1 {
+			return fmt.Errorf("cannot encrypt with a public key: target must be of degree at least 1 but is of degree %d", ct.Degree())
+		}
 
 		levelQ = ct.LevelQ()
 		levelP = ct.LevelP()
@@ -308,6 +316,10 @@ func (enc Encryptor) encryptZeroPk(pk *PublicKey, ct interface{}) (err error) {
 }
 
 func (enc Encryptor) encryptZeroPkNoP(pk *PublicKey, ct Element[ring.Poly]) (err error) {
+
+	if ct.Degree() < 1 {
+		return fmt.Errorf("cannot encrypt with a public key: target must be of degree at least 1 but is of degree %d", ct.Degree())
+	}
 
 	levelQ := ct.Level()
 
